@@ -152,3 +152,81 @@ package satisfaction_levels
 //@   nopanic
 //@   ensures [new_object_each_time] typeis(result, *IdealCoefficientSatisfactionLevels) && fresh(result.(*IdealCoefficientSatisfactionLevels))
 //@             && result.(*IdealCoefficientSatisfactionLevels).manager == s.coefficientManager
+
+// ---- the explicit threshold list under criteria-changing biases (C07, C14, C18, C15)
+//@ func fetchParams
+//@   property C14 C07 C12 C13
+//@   panics_iff [wrong_type] !typeis(params, *ThresholdSatisfactionLevels)
+//@   ensures [the_list] result == params.(*ThresholdSatisfactionLevels)
+
+// a new criterion gets, per level, a fraction in [0,1) of the reference criterion's threshold of that level ...
+//@ func assignNewThresholds
+//@   property C14 C18 C12 C13
+//@   fnparam generator ensures 0.0 <= result && result < 1.0
+//@   ensures [fraction_of_the_reference_threshold_per_level] fresh(result) && len(result) == len(params.Thresholds) && forall k int :: 0 <= k && k < len(params.Thresholds) ==>
+//@             model.fractionOf(result[k], params.Thresholds[k][referenceCriterion.Id])
+//@   loop 1 invariant [ctx] fresh(thresholds) && len(thresholds) == len(params.Thresholds)
+//@   loop 1 invariant [so_far] forall k int :: 0 <= k && k < iter ==> model.fractionOf(thresholds[k], params.Thresholds[k][referenceCriterion.Id])
+
+// ... sorted in the direction of the series (ascending for aspect elimination, descending for satisfaction) ...
+//@ func sortThresholds
+//@   property C14 C18 C12 C13
+//@   assigns thresholds
+//@   ensures [in_series_direction] forall i int, j int :: 0 <= i && i < j && j < len(thresholds) ==> (ascending ? thresholds[i] <= thresholds[j] : thresholds[i] >= thresholds[j])
+//@   ensures [same_values] forall k int :: 0 <= k && k < len(thresholds) ==> exists j int :: 0 <= j && j < len(thresholds) && thresholds[k] == old(thresholds[j])
+
+// ... and attached level by level under the new criterion's id
+//@ func mapThresholdsToEntries
+//@   property C14 C18 C12 C13
+//@   ensures [one_single_key_map_per_level] fresh(result) && len(result) == len(thresholdsValues) && forall k int :: 0 <= k && k < len(thresholdsValues) ==>
+//@             criterion.Id in result[k] && result[k][criterion.Id] == thresholdsValues[k] && forall q string :: q in result[k] ==> q == criterion.Id
+//@   loop 1 invariant [ctx] fresh(thresholds) && len(thresholds) == len(thresholdsValues)
+//@   loop 1 invariant [so_far] forall k int :: 0 <= k && k < iter ==> criterion.Id in thresholds[k] && thresholds[k][criterion.Id] == thresholdsValues[k] && forall q string :: q in thresholds[k] ==> q == criterion.Id
+
+//@ func (*ThresholdSatisfactionLevels).preserveLeftThresholds
+//@   property C14 C15 C07 C12 C13
+//@   ensures [every_level_restricted_to_the_left_criteria] fresh(result) && len(result) == len(t.Thresholds) && forall i int, k int :: 0 <= i && i < len(t.Thresholds) && 0 <= k && k < len(*leftCriteria) ==>
+//@             (*leftCriteria)[k].Id in result[i] && result[i][(*leftCriteria)[k].Id] == t.Thresholds[i][(*leftCriteria)[k].Id]
+//@   loop 1 invariant [ctx] fresh(thresholds) && len(thresholds) == len(t.Thresholds)
+//@   loop 1 invariant [so_far] forall i int, k int :: 0 <= i && i < iter && 0 <= k && k < len(*leftCriteria) ==>
+//@             (*leftCriteria)[k].Id in thresholds[i] && thresholds[i][(*leftCriteria)[k].Id] == t.Thresholds[i][(*leftCriteria)[k].Id]
+
+//@ func (*ThresholdSatisfactionLevels).merge
+//@   property C14 C18 C07 C12 C13
+//@   ensures [every_level_extended] fresh(result) && len(result) == len(t.Thresholds) && forall i int, q string :: 0 <= i && i < len(t.Thresholds) ==>
+//@             (q in t.Thresholds[i] ==> q in result[i] && result[i][q] == t.Thresholds[i][q]) && (q in add.Thresholds[i] ==> q in result[i] && result[i][q] == add.Thresholds[i][q])
+//@   loop 1 invariant [ctx] fresh(newThresholds) && len(newThresholds) == len(t.Thresholds)
+//@   loop 1 invariant [so_far] forall i int, q string :: 0 <= i && i < iter ==>
+//@             (q in t.Thresholds[i] ==> q in newThresholds[i] && newThresholds[i][q] == t.Thresholds[i][q]) && (q in add.Thresholds[i] ==> q in newThresholds[i] && newThresholds[i][q] == add.Thresholds[i][q])
+
+//@ func (*ThresholdSatisfactionLevelsSource).OnCriteriaRemoved
+//@   property C14 C15 C07 C12 C13
+//@   ensures [position_kept] typeis(result, *ThresholdSatisfactionLevels) && fresh(result.(*ThresholdSatisfactionLevels))
+//@             && result.(*ThresholdSatisfactionLevels).currentIndex == params.(*ThresholdSatisfactionLevels).currentIndex
+//@             && len(result.(*ThresholdSatisfactionLevels).Thresholds) == len(params.(*ThresholdSatisfactionLevels).Thresholds)
+//@ func (*ThresholdSatisfactionLevelsSource).Merge
+//@   property C14 C18 C07 C12 C13
+//@   ensures [position_kept] typeis(result, *ThresholdSatisfactionLevels) && fresh(result.(*ThresholdSatisfactionLevels))
+//@             && result.(*ThresholdSatisfactionLevels).currentIndex == params.(*ThresholdSatisfactionLevels).currentIndex
+//@             && len(result.(*ThresholdSatisfactionLevels).Thresholds) == len(params.(*ThresholdSatisfactionLevels).Thresholds)
+//@ func (*ThresholdSatisfactionLevelsSource).OnCriterionAdded
+//@   property C14 C18 C07 C12 C13
+//@   fnparam generator ensures 0.0 <= result && result < 1.0
+//@   ensures [one_threshold_per_level_in_series_direction] typeis(result, ThresholdsUpdate) && len(result.(ThresholdsUpdate).Thresholds) == len(params.(*ThresholdSatisfactionLevels).Thresholds)
+//@             && (forall k int :: 0 <= k && k < len(result.(ThresholdsUpdate).Thresholds) ==> criterion.Id in result.(ThresholdsUpdate).Thresholds[k])
+//@             && forall i int, j int :: 0 <= i && i < j && j < len(result.(ThresholdsUpdate).Thresholds) ==>
+//@                  (t.ascending ? result.(ThresholdsUpdate).Thresholds[i][criterion.Id] <= result.(ThresholdsUpdate).Thresholds[j][criterion.Id]
+//@                               : result.(ThresholdsUpdate).Thresholds[i][criterion.Id] >= result.(ThresholdsUpdate).Thresholds[j][criterion.Id])
+
+// the level source named in the request; decoded into a new parameter object of that source
+//@ spec sourceName(s SatisfactionLevelsSource) string
+//@ ifacemethod SatisfactionLevelsSource.Identifier
+//@   ensures result == sourceName(self)
+//@ spec blankOf(s SatisfactionLevelsSource) SatisfactionLevels
+//@ ifacemethod SatisfactionLevelsSource.BlankParams
+//@   ensures result == blankOf(self)
+//@ func Find
+//@   property C14 C20 C12 C13
+//@   ensures [first_source_with_that_name] len(function) > 0 && exists k int :: 0 <= k && k < len(functions) && sourceName(functions[k]) == function && result == blankOf(functions[k])
+//@             && forall j int :: 0 <= j && j < k ==> sourceName(functions[j]) != function
+//@   loop 1 invariant [none_so_far] len(function) > 0 && forall j int :: 0 <= j && j < iter ==> sourceName(functions[j]) != function
